@@ -104,9 +104,34 @@ def run(kind, se, ep, N, B, stop_at, seed=0):
     return rec.ev, st
 
 
+def continued(kind, seed=0):
+    """History: a state that was trained before is trained again with a scheduler and starting_epoch > 1: the parameters
+    at the first event are those at the call, and they change only inside batch event pairs."""
+    rng = np.random.default_rng(seed)
+    torch.manual_seed(seed)
+    st = C.make_state(kind, 2, 2, 1)
+    data = torch.tensor(rng.integers(0, 2, size=(4, 2)), dtype=torch.double)
+    kw = {} if kind == "positive" else {"input_bases": np.array([list("ZZ"), list("XZ"), list("ZZ"), list("ZY")])}
+    st.fit(data, epochs=2, pos_batch_size=2, k=1, lr=0.1, **kw)
+    out = []
+    for sched_kw in ({}, {"scheduler": torch.optim.lr_scheduler.StepLR, "scheduler_args": {"step_size": 1, "gamma": 0.5}}):
+        rec = Recorder()
+        before = rec.version(st)
+        st.fit(data, epochs=4, pos_batch_size=2, k=1, lr=0.1, starting_epoch=3, callbacks=[make_cb(rec)], **kw, **sched_kw)
+        if not rec.ev or rec.ev[0][0] != "train_start" or rec.ev[0][-1] != before:
+            out.append("parameters changed between the call of fit and train_start (scheduler=%s, starting_epoch=3, state trained before)" % bool(sched_kw))
+        out += check_trace(rec.ev, 3, 4, 4, 2, None)
+    return out
+
+
 def native_check(quick=True):
     fails = []
     n = 0
+    for kind in ("positive", "complex"):
+        f = continued(kind)
+        n += 1
+        if f:
+            fails.append(({"kind": kind, "continued run of a trained state": True}, f[:2]))
     grid = [(1, 2, 5, 2), (2, 3, 4, 4), (1, 1, 3, 5), (3, 2, 4, 2), (1, 2, 6, 3)] if quick else \
         [(se, ep, N, B) for se in (1, 2, 4) for ep in (0, 1, 3) for N in (1, 4, 5) for B in (1, 2, 5, 7)]
     for kind in ("positive", "complex", "mixed"):
